@@ -116,10 +116,10 @@ func vfFrozenWrites() int {
 	return n
 }
 
-func vfGlobalWrites() int            { return 0 }
-func vfMapOrder(on bool)             {}
-func vfNarrow(on bool)               {}
-func vfNarrowViolations() int        { return 0 }
+func vfGlobalWrites() int                    { return 0 }
+func vfMapOrder(on bool)                     {}
+func vfNarrow(on bool)                       {}
+func vfNarrowViolations() int                { return 0 }
 func vfPlaceholder(tok string) (Value, bool) { return nil, false }
 
 // vfSharedMutable counts maps / slice backing arrays reachable from both a and b.
